@@ -109,7 +109,7 @@ type vC11Peer struct {
 	id      peer.ID
 	name    string
 	script  []vC11Beh
-	sscript []string // per NewStream: ok refuse refuse-slow slow-ok reset-on-open
+	sscript []string // per NewStream: ok refuse refuse-slow slow-ok reset-on-open dead-on-open
 	// guarded by hs.mu
 	streams     []*vC11Stream
 	nNew        int
@@ -439,6 +439,10 @@ func (hs *vC11Harness) newStream(ctx context.Context, p peer.ID, protos []protoc
 	vp.streams = append(vp.streams, st)
 	hs.mu.Unlock()
 	hs.c.Obs("streams_opened", 1)
+	if beh == "dead-on-open" {
+		remote.Reset() // before the stream is handed out: the first write on it fails
+		return st, nil
+	}
 	hs.wg.Add(1)
 	go hs.serve(st, beh == "reset-on-open")
 	return st, nil
@@ -714,9 +718,17 @@ func vC11GenScenario(c *vh.Case, bubble bool, T time.Duration) vC11Scenario {
 		for i := 0; i < 40; i++ {
 			x := "ok"
 			if r.Float64() < faulty/2 {
-				x = []string{"refuse", "refuse-slow", "slow-ok", "reset-on-open"}[r.Intn(4)]
+				x = []string{"refuse", "refuse-slow", "slow-ok", "reset-on-open", "dead-on-open"}[r.Intn(5)]
 			}
 			ss = append(ss, x)
+		}
+		if faulty > 0 && r.Intn(4) == 0 {
+			// a run of 2-3 streams that are already reset when they are handed out (the first write on each fails):
+			// a call then sees its first attempt and its single retry fail at the write
+			at := r.Intn(12)
+			for j, k := 0, 2+r.Intn(2); j < k; j++ {
+				ss[at+j] = "dead-on-open"
+			}
 		}
 		sc.SScripts = append(sc.SScripts, ss)
 	}
@@ -1106,7 +1118,7 @@ var vC11Clauses = []string{"own-reply", "reply-from-carrying-transmission", "exc
 
 func TestVerif_C11_bubble(t *testing.T) {
 	vh.Run(t, vh.Spec{Prop: "C11", Unit: "bubble", Quick: 3000, Thorough: 150000, CostMs: 4, WallS: 60,
-		Rule:    "virtual time, real 10 s read timeout: 1-8 callers x 1-3 peers x 1-5 calls each (SendRequest of 5 types, 20% SendMessage/ADD_PROVIDER), think times 0-3 s; per-peer remote script over the requests it reads (fault share 0/20/50%): prompt, delayed 1-9 s, delayed 10 s +/- 1 ms (boundary), delayed 11-25 s, silent, reset after reading, close, non-protobuf frame, over-long length prefix, truncated frame (+ silence or EOF); per-stream script: refused, slowly refused, slow, reset on open; contexts: none / pre-cancelled / deadline in {1 ms, 5 s, 10 s -/+ 1 ms, 15 s, 20 s} / cancelled at {0, 3.3 s, 10 s, 10 s + 1 ms, 20 s + 1 ms, PRNG}; boundary hooks cancel the caller or call OnDisconnect when the remote has read the request / written the reply; OnDisconnect timers; 1 case in 6 is a burst (4-8 callers start at once without think time, 30% pre-cancelled contexts); oracle on ids + frame serials + logging stream; non-trivial = >= 2 callers, >= 1 successful request and (>= 1 stream reset by the sender or >= 1 OnDisconnect); distinct by (per-call transmissions and outcome, per-stream writes/frames)",
+		Rule:    "virtual time, real 10 s read timeout: 1-8 callers x 1-3 peers x 1-5 calls each (SendRequest of 5 types, 20% SendMessage/ADD_PROVIDER), think times 0-3 s; per-peer remote script over the requests it reads (fault share 0/20/50%): prompt, delayed 1-9 s, delayed 10 s +/- 1 ms (boundary), delayed 11-25 s, silent, reset after reading, close, non-protobuf frame, over-long length prefix, truncated frame (+ silence or EOF); per-stream script: refused, slowly refused, slow, reset on open, already reset when handed out (runs of 2-3 such streams in a quarter of the faulty cases); contexts: none / pre-cancelled / deadline in {1 ms, 5 s, 10 s -/+ 1 ms, 15 s, 20 s} / cancelled at {0, 3.3 s, 10 s, 10 s + 1 ms, 20 s + 1 ms, PRNG}; boundary hooks cancel the caller or call OnDisconnect when the remote has read the request / written the reply; OnDisconnect timers; 1 case in 6 is a burst (4-8 callers start at once without think time, 30% pre-cancelled contexts); oracle on ids + frame serials + logging stream; non-trivial = >= 2 callers, >= 1 successful request and (>= 1 stream reset by the sender or >= 1 OnDisconnect); distinct by (per-call transmissions and outcome, per-stream writes/frames)",
 		Clauses: append([]string{"late-reply-not-returned"}, vC11Clauses...)},
 		func(c *vh.Case) {
 			sc := vC11GenScenario(c, true, 10*time.Second)
